@@ -288,3 +288,57 @@ def control_time_round_trip(repo):
             raise ExtractError("time-control round trip not evaluable at %d s: %s" % (t, ex))
         rows.append((t, token, back))
     return rows, wc, rc
+
+
+def control_type_table(repo):
+    """classification of simple controls by the class of their condition: -> (table {condition class text: _ControlType member text},
+    default member text, function node holding the chain, init_ok) -- tolerant of where the isinstance chain lives: directly in
+    Control.__init__ (assigning self._control_type) or in a helper of class Control that returns the member and that __init__ calls."""
+    import ast
+    from ..src import walk, calls, last_attr, unparse, ExtractError
+    CTRL = "wntr/network/controls.py"
+    cls = repo.cls(CTRL, "Control")
+    meths = {n.name: n for n in cls.body if isinstance(n, ast.FunctionDef)}
+    ini = meths.get("__init__")
+    if ini is None:
+        raise ExtractError("Control.__init__ vanished")
+
+    def chain(fn):
+        table, default = {}, None
+        for n in walk(fn):
+            if isinstance(n, ast.If) and isinstance(n.test, ast.Call) and unparse(n.test.func) == "isinstance" and len(n.test.args) == 2:
+                val = None
+                for s_ in n.body:
+                    if isinstance(s_, ast.Assign) and unparse(s_.targets[0]) == "self._control_type":
+                        val = unparse(s_.value)
+                    if isinstance(s_, ast.Return) and s_.value is not None:
+                        val = unparse(s_.value)
+                if val and "_ControlType." in val:
+                    table[unparse(n.test.args[1])] = val
+                    cur = n
+                    while len(cur.orelse) == 1 and isinstance(cur.orelse[0], ast.If):
+                        cur = cur.orelse[0]
+                    for s_ in cur.orelse:
+                        if isinstance(s_, ast.Assign) and unparse(s_.targets[0]) == "self._control_type":
+                            default = unparse(s_.value)
+                        if isinstance(s_, ast.Return) and s_.value is not None:
+                            default = unparse(s_.value)
+        return table, default
+    table, default = chain(ini)
+    holder = ini
+    init_ok = bool(table)
+    if not table:
+        for c in calls(ini):
+            nm = last_attr(c)
+            if nm in meths and nm != "__init__":
+                t2, d2 = chain(meths[nm])
+                if t2:
+                    table, default, holder = t2, d2, meths[nm]
+                    # __init__ must store the helper's result for the condition it was given
+                    init_ok = any(isinstance(a, ast.Assign) and unparse(a.targets[0]) == "self._control_type" and last_attr(a.value) == nm
+                                  and a.value.args and unparse(a.value.args[0]) == "condition" for a in walk(ini))
+    if not table:
+        raise ExtractError("Control: classification of simple controls by condition class not found")
+    holder._rel = CTRL
+    holder._qual = "Control." + holder.name
+    return table, default, holder, init_ok
